@@ -269,8 +269,8 @@ def block_jobs(ctx, invariants, ops, lite=False):
         ("block-two", [lines_gen(11, 1, 2, ["R"], base=0, ws=()), lines_gen(10, 2, 2, ["R", "P"], base=1, ws=())]),
         ("block-tab-mb", [lines_gen(7, 2, 2, ["R", "P"], unit="\t", base=1, ws=(1,)), lines_gen(8, 2, 2, ["R", "P"], base=1, ws=(2,), mb=True),
                           lines_gen(7, 2, 2, ["T", "F"], unit="    ", base=0, suffix="é")]),
-        ("block-sim", [lines_gen(14, 3, 5, ["R", "P", "S", "SP", "SF", "U", "T", "F"], ws=(2,), base=ctx.seed % 2, simulate=(5000, 14)),
-                       kitchen_sink(ctx, ["R", "P", "S", "U", "T", "F"], 14, 2000)]),
+        ("block-sim", [lines_gen(14, 3, 5, ["R", "P", "S", "SP", "SF", "U", "T", "F"], ws=(2,), base=ctx.seed % 2, simulate=(1500, 14)),
+                       kitchen_sink(ctx, ["R", "P", "S", "U", "T", "F"], 14, 600)]),
         ("block-html", [dict(lines_gen(7, 2, 2, ["R", "P", "T"], ws=(2,)), cfg=html)]),
         ("block-crossing", [lines_gen(8, 3, 3, ["R", "P", "T"], blank=False, crossing=True, max_code=3)]),
         ("block-valueless-names", [dict(lines_gen(6, 2, 2, ["NV", "NN", "R", "NVu"], blank=False), cfg={"targets": ["a", ""]})]),
@@ -341,8 +341,8 @@ def unwrap_jobs(ctx, invariants, ops, lite=False):
                           lines_gen(8, 1, 1, ["Ru"], free=(0, 1, 2), blank=False, flag_val='="true"'),
                           lines_gen(8, 2, 2, ["Ru", "Su", "R"], free=(1,), blank=False, flag_val="='1'"),
                           lines_gen(8, 2, 2, ["Ru", "Tu", "P"], free=(1,), blank=False, quote='"', flags_first=True)]),
-        ("unwrap-sim", [lines_gen(16, 3, 4, ["Ru", "R", "P", "Pu", "S", "Su"], free=(0, 1, 2), ws=(2,), simulate=(5000, 16)),
-                        kitchen_sink(ctx, ["Ru", "R", "P", "Pu", "T", "Tu", "Su"], 16, 2000)]),
+        ("unwrap-sim", [lines_gen(16, 3, 4, ["Ru", "R", "P", "Pu", "S", "Su"], free=(0, 1, 2), ws=(2,), simulate=(1500, 16)),
+                        kitchen_sink(ctx, ["Ru", "R", "P", "Pu", "T", "Tu", "Su"], 16, 600)]),
     ]
     for (name, gens) in sets:
         ctx.job(name, gens=gens, invariants=invariants, ops=ops, cfg=cfg, nontrivial=has_ready)
